@@ -18,7 +18,7 @@ fn scalar_from_hex(h: &str) -> Result<vf::GroupOrderElement, String> {
 
 /// every area may contribute `exec(op, in) -> Option<Result<Value, String>>`; add to this list
 fn area_execs() -> Vec<fn(&str, &Value) -> Option<Result<Value, String>>> {
-    vec![crate::bn::exec, crate::issuance::exec, crate::nr::exec, crate::ser::exec]
+    vec![crate::bn::exec, crate::issuance::exec, crate::nr::exec, crate::pres::exec, crate::ser::exec]
 }
 
 pub fn exec_one(v: &Value) -> Value {
